@@ -55,15 +55,15 @@ CHECKS = {
  "C11": ("proof",
          "PARTIAL BY NATURE. Lean theorems (kind E): the Phi recursions of the AMEn matrix product are the exact left/right partial contractions of <X, A·B>, and the local right-hand side `_local_AB` tested against any core V equals the global trilinear form with X's k-th core replaced by V (localAB_galerkin), the full sweep equals Σ X(i,j)·Σ_k A(i,k)B(k,j) (abxSweep_eq_dense): the local problems are the exact Galerkin projections of the exact product. "
          "Tie: the module-level kernels of _amen.py are compared exactly with the models on integer data. The headline inequality ||y - A x|| <= C·eps·||A x|| (kind K: no convergence proof of DMRG/AMEn exists) is MONITORED, not proved: fast_matvec, dmrg_hadamard, amen_mv, amen_mm vs the exact product for orders 1..6, random and user guesses, complex for DMRG (C = 10; observed <= 0.7·eps).",
-         TB + "error bound only monitored; the inline einsums of _dmrg.py are not modelled (monitor only); QR/SVD contracts", "§5 C11"),
+         TB + "error bound only monitored (truncation, kick and stopping rule of the sweeps are not modelled); the inline einsum chains of _dmrg.py and the environments stored by the DMRG / AMEn product loops are tied by observing the running functions from outside (sys.settrace) and recomputing them with the Lean kernels dmrgPhiBck/Fwd, dmrgSuper (theorem dmrgSuper_galerkin), localAB and the folds in exact rationals; QR/SVD contracts", "§5 C11"),
  "C12": ("proof",
          "PARTIAL BY NATURE. Lean theorems (kind E): `_compute_phi_fwd_A/bck_A/…_rhs` are the exact partial contractions of <x, A y> and <b, x>; `_LinearOp.matvec` (tensordot sequence) equals `_local_product`; Galerkin exactness: <x[k:=v], A x[k:=u]> = <v, localProduct(Φ_l, A_k, Φ_r) u> and <b, x[k:=v]> = <v, localRhs> for every position, order, rank profile and core value — the local systems AMEn solves are the exact projections of the global system. "
          "Tie: every kernel of solvers.py (dense and banded local product, _LinearOp with and without preconditioners, phi recursions) compared exactly with the models on integer data; preconditioner blocks checked against the stated diagonal blocks. The residual inequality ||A x - b|| <= C·eps·||b|| (kind K) is MONITORED over SPD / diagonally dominant / Laplacian-like systems, all preconditioners, GMRES / BiCGSTAB / direct local solves, guesses, seeds (C = 10).",
-         TB + "residual bound only monitored (known finding for BiCGSTAB); GMRES/BiCGSTAB/torch.linalg.solve numerics outside the model; truncation/enrichment covered by M-trunc only", "§5 C12"),
+         TB + "residual bound only monitored (known finding for BiCGSTAB); GMRES/BiCGSTAB/torch.linalg.solve numerics outside the model (gmres / gmres_restart have direct contract cases); truncation/enrichment covered by M-trunc only; the loop itself is tied by observation: before every direct local solve of a running _amen_solve_python the assembled local matrix, the local right-hand side and the stored environments are recomputed by localProduct / localRhs / foldFwdA / foldBckA / foldFwdRhs / foldBckRhs in exact rationals (the environments of local_galerkin / rhs_galerkin are the ones the loop holds)", "§5 C12"),
  "C13": ("proof",
          "PARTIAL BY NATURE. Lean theorems: scalar division is exact and inverts scalar multiplication; diag(y) acts as the Hadamard product (so the system solved is y*q = x entrywise); the 3-index kernels of _division.py equal the C12 kernels on the diagonal embedding of the divisor core, hence the C12 Galerkin theorems transfer. "
          "Tie: division kernels compared exactly with the models; ||q*y - x|| <= C·tol·||x|| (kind K) MONITORED for x/y, s/y, elementwise_divide with/without preconditioner and guess (C = 10).",
-         TB + "residual bound only monitored", "§5 C13"),
+         TB + "residual bound only monitored; loop state of the running amen_divide (local matrix, rhs, environments) recomputed by the C12 kernels and folds on diag(a)", "§5 C13"),
  "C14": ("proof",
          "Index safety at proof level, quality PARTIAL BY NATURE. Lean theorems over the index-bookkeeping model: every update of the left/right index sets by a decoded pivot (np.unravel_index) keeps every multi-index inside its mode sizes; every row of every eval_index matrix has length d and column k in [0, N[k]); lifted by an invariant over the exact loop schedule of dmrg_cross (init pass, then LR/RL sweeps, any number of sweeps, any order d) to ALL function calls of every run, given only that _maxvol returns row numbers below the number of rows (dmrg_cross_calls_inRange). "
          "Tie: every index matrix handed to the user function and every index-set update observed on real runs is replayed through the Lean model and compared EXACTLY (≈200 events per run); the oracle checks dtype, shape M×d, column ranges, and for function_interpolate that every value handed to the function is an actual entry of the argument tensors. Approximation quality (kind K) is MONITORED (C = 50).",
